@@ -249,6 +249,9 @@ class DiagLinearOperator(TriangularLinearOperator):
             if not torch.all(self.diagonal() == 1):
                 raise RuntimeError("Received `unitriangular=True` but `LinearOperator` does not have a unit diagonal.")
             return rhs
+        if not left:
+            # X A = R is the transposed system A^T X^T = R^T, and a diagonal matrix is its own transpose
+            return self.solve(right_tensor=rhs.mT).mT
         return self.solve(right_tensor=rhs)
 
     def sqrt(self: Float[LinearOperator, "*batch M N"]) -> Float[LinearOperator, "*batch M N"]:
